@@ -122,7 +122,7 @@ CHECKS["C16"] = dict(
     technique="Coq MathComp proof over translator-generated definitions + PrimFloat execution + real fits",
     design="4/C16")
 CHECKS["C04"] = dict(
-    text=("Theorems (7 obligations): full: L L^T = K + max(sigma^2,j) I; inducing points: L L^T = K_xu (K_uu + j I)^-1 K_ux (recomputed and "
+    text=("Theorems (8 obligations): full: L L^T = K + max(sigma^2,j) I; inducing points: L L^T = K_xu (K_uu + j I)^-1 K_ux (recomputed and "
           "supplied Lp); full Nystroem: gap = discarded eigen-part, PSD; improved Nystroem factor identity; (K + j I) - L L^T is PSD via the Schur "
           "complement under the joint-Gram PSD hypothesis. PrimFloat execution of the generated decomposition routines on recorded Gram matrices, "
           "eigh/qr outputs recorded and contract-checked; NumPy oracle for residuals and the minimum eigenvalue of the gap."),
